@@ -16,9 +16,18 @@ Gen/Consts.vos Gen/Consts.vok Gen/Consts.required_vos: Gen/Consts.v
 Gen/Enums.vo Gen/Enums.glob Gen/Enums.v.beautified Gen/Enums.required_vo: Gen/Enums.v 
 Gen/Enums.vio: Gen/Enums.v 
 Gen/Enums.vos Gen/Enums.vok Gen/Enums.required_vos: Gen/Enums.v 
+Gen/EnvelopeTables.vo Gen/EnvelopeTables.glob Gen/EnvelopeTables.v.beautified Gen/EnvelopeTables.required_vo: Gen/EnvelopeTables.v 
+Gen/EnvelopeTables.vio: Gen/EnvelopeTables.v 
+Gen/EnvelopeTables.vos Gen/EnvelopeTables.vok Gen/EnvelopeTables.required_vos: Gen/EnvelopeTables.v 
 Gen/Layouts.vo Gen/Layouts.glob Gen/Layouts.v.beautified Gen/Layouts.required_vo: Gen/Layouts.v Base/Layout.vo
 Gen/Layouts.vio: Gen/Layouts.v Base/Layout.vio
 Gen/Layouts.vos Gen/Layouts.vok Gen/Layouts.required_vos: Gen/Layouts.v Base/Layout.vos
+Model/EnvKeystore.vo Model/EnvKeystore.glob Model/EnvKeystore.v.beautified Model/EnvKeystore.required_vo: Model/EnvKeystore.v Base/Plan.vo Model/Envelope.vo Gen/Consts.vo Gen/EnvelopeTables.vo
+Model/EnvKeystore.vio: Model/EnvKeystore.v Base/Plan.vio Model/Envelope.vio Gen/Consts.vio Gen/EnvelopeTables.vio
+Model/EnvKeystore.vos Model/EnvKeystore.vok Model/EnvKeystore.required_vos: Model/EnvKeystore.v Base/Plan.vos Model/Envelope.vos Gen/Consts.vos Gen/EnvelopeTables.vos
+Model/Envelope.vo Model/Envelope.glob Model/Envelope.v.beautified Model/Envelope.required_vo: Model/Envelope.v Base/Plan.vo Base/Table.vo Base/Layout.vo Gen/Consts.vo Gen/Layouts.vo Gen/Enums.vo Gen/EnvelopeTables.vo
+Model/Envelope.vio: Model/Envelope.v Base/Plan.vio Base/Table.vio Base/Layout.vio Gen/Consts.vio Gen/Layouts.vio Gen/Enums.vio Gen/EnvelopeTables.vio
+Model/Envelope.vos Model/Envelope.vok Model/Envelope.required_vos: Model/Envelope.v Base/Plan.vos Base/Table.vos Base/Layout.vos Gen/Consts.vos Gen/Layouts.vos Gen/Enums.vos Gen/EnvelopeTables.vos
 Model/Vhd.vo Model/Vhd.glob Model/Vhd.v.beautified Model/Vhd.required_vo: Model/Vhd.v Base/Arith.vo Base/Plan.vo Base/Table.vo Gen/Consts.vo
 Model/Vhd.vio: Model/Vhd.v Base/Arith.vio Base/Plan.vio Base/Table.vio Gen/Consts.vio
 Model/Vhd.vos Model/Vhd.vok Model/Vhd.required_vos: Model/Vhd.v Base/Arith.vos Base/Plan.vos Base/Table.vos Gen/Consts.vos
@@ -28,3 +37,6 @@ Proofs/Vhd.vos Proofs/Vhd.vok Proofs/Vhd.required_vos: Proofs/Vhd.v Base/Arith.v
 Props/C04.vo Props/C04.glob Props/C04.v.beautified Props/C04.required_vo: Props/C04.v Base/Plan.vo Base/Table.vo Model/Vhd.vo Proofs/Vhd.vo
 Props/C04.vio: Props/C04.v Base/Plan.vio Base/Table.vio Model/Vhd.vio Proofs/Vhd.vio
 Props/C04.vos Props/C04.vok Props/C04.required_vos: Props/C04.v Base/Plan.vos Base/Table.vos Model/Vhd.vos Proofs/Vhd.vos
+Props/C16.vo Props/C16.glob Props/C16.v.beautified Props/C16.required_vo: Props/C16.v Model/Envelope.vo Model/EnvKeystore.vo
+Props/C16.vio: Props/C16.v Model/Envelope.vio Model/EnvKeystore.vio
+Props/C16.vos Props/C16.vok Props/C16.required_vos: Props/C16.v Model/Envelope.vos Model/EnvKeystore.vos
